@@ -160,7 +160,12 @@ def oracle(entry, method, kwargs, flag, pre, post):
         bad.append(("earlier-record-changed", "an existing provenance row was modified, dropped or reordered"))
     n_new = len(post) - len(pre)
     if n_new != 1:
-        bad.append(("no-record-appended" if n_new <= 0 else "more-than-one-record-appended", f"{n_new} new provenance rows"))
+        if n_new <= 0:
+            kind = "explicit-none-not-treated-as-true" if flag is None else "no-record-appended"
+        else:
+            kind = "more-than-one-record-appended"
+        bad.append((kind, f"{n_new} new provenance rows with record_provenance={'<omitted>' if flag == OMIT else flag}"
+                          + (" (None is documented as treated as True)" if flag is None else "")))
         return bad
     try:
         rec = json.loads(post[-1][0])
@@ -200,12 +205,15 @@ def oracle(entry, method, kwargs, flag, pre, post):
 
 # ----------------------------------------------------------------------------- one call
 
+OMIT = "omit"     # record_provenance not passed at all (as opposed to an explicit None, documented as "treated as True")
+FLAGS = (OMIT, None, True, False)
+
 HISTORY = []      # every call made so far in this process (entry, method, kwargs, flag): the state a record could leak from
 
 
 def one_call(res, stats, pending, cid, entry, method, ts, kwargs, flag, numpy_case=False):
     kw = dict(kwargs)
-    if flag is not None:
+    if flag != OMIT:
         kw["record_provenance"] = flag
     pre = pc.prov_rows(ts)
     r = pc.call_entry(entry, method, ts, kw)
@@ -233,7 +241,7 @@ def one_call(res, stats, pending, cid, entry, method, ts, kwargs, flag, numpy_ca
     passed.pop("record_provenance", None)
     npop = pc.normalise_population_size(passed.get("population_size")) if entry in ("date",) + tuple(pc.DATING) else None
     computed = None
-    on = flag is not False
+    on = flag is not False          # omitted, None and True all mean on
     if entry == "preprocess_ts" and on and kwargs.get("delete_intervals") is None and len(post) == len(pre) + 1:
         try:
             computed = json.loads(post[-1][0])["parameters"].get("delete_intervals")
@@ -244,7 +252,8 @@ def one_call(res, stats, pending, cid, entry, method, ts, kwargs, flag, numpy_ca
         extra = {k: v for k, v in kwargs.items() if k in pc.SIMPLIFY_KWARGS}
         passed = {k: v for k, v in passed.items() if k not in pc.SIMPLIFY_KWARGS}
     passed.pop("priors", None)
-    pending[cid] = dict(text=pc.encode_case(cid, entry, method if entry in ("date",) + tuple(pc.DATING) else None, on, len(pre), passed,
+    pending[cid] = dict(text=pc.encode_case(cid, entry, method if entry in ("date",) + tuple(pc.DATING) else None,
+                                            None if flag in (OMIT, None) else flag, len(pre), passed,
                                             npop, computed if computed is not None else ([] if entry == "preprocess_ts" else None), extra),
                         impl=pc.impl_rows(pre, post), label=label, replay=rp, on=on)
     if on and len(post) == len(pre) + 1:
@@ -290,13 +299,13 @@ def body(ctx, res, stats, pending, rng, n_combo, n_inputs):
             sets = dating_param_sets(method, info, rng, n_combo, ts0)
             for si, kwargs in enumerate(sets):
                 for entry in ("date", method):
-                    flag = [None, True, False][(si + (0 if entry == "date" else 1) + inp) % 3]
+                    flag = FLAGS[(si + (0 if entry == "date" else 1) + inp) % 4]
                     k = [0, 1, 3][(si + inp) % 3]
                     ts = pc.with_prior_rows(ts0, rng, k)
                     one_call(res, stats, pending, nid(), entry, method, ts, kwargs, flag)
             # every flag value on the default call of both entries, with 2 earlier rows
             for entry in ("date", method):
-                for flag in (None, True, False):
+                for flag in FLAGS:
                     one_call(res, stats, pending, nid(), entry, method, pc.with_prior_rows(ts0, rng, 2), sets[0], flag)
             for kwargs in numpy_sets(method, info):
                 one_call(res, stats, pending, nid(), method, method, pc.with_prior_rows(ts0, rng, 1), kwargs, True, numpy_case=True)
@@ -304,12 +313,12 @@ def body(ctx, res, stats, pending, rng, n_combo, n_inputs):
         # preprocess_ts / split_disjoint_nodes
         tsp = pc.with_prior_rows(ts0, rng, 2)
         for si, kwargs in enumerate(preprocess_sets()):
-            for flag in (None, True, False):
+            for flag in FLAGS:
                 one_call(res, stats, pending, nid(), "preprocess_ts", None, tsp if si % 2 else pc.with_prior_rows(ts0, rng, 0), kwargs, flag)
         for kwargs in preprocess_numpy_sets():
             one_call(res, stats, pending, nid(), "preprocess_ts", None, tsp, kwargs, True, numpy_case=True)
             one_call(res, stats, pending, nid(), "preprocess_ts", None, tsp, kwargs, False, numpy_case=True)
-        for flag in (None, True, False):
+        for flag in FLAGS:
             one_call(res, stats, pending, nid(), "split_disjoint_nodes", None, tsp, {}, flag)
         # a pipeline: preprocess -> date -> date again; each step must add exactly one row on top of the previous ones
         cur = pc.with_prior_rows(ts0, rng, 1)
@@ -317,7 +326,7 @@ def body(ctx, res, stats, pending, rng, n_combo, n_inputs):
                  ("inside_outside", "inside_outside", {"mutation_rate": info["mu"], "population_size": info["Ne"]}),
                  ("date", "maximization", {"mutation_rate": info["mu"], "population_size": info["Ne"]})]
         for entry, method, kwargs in steps:
-            nxt = one_call(res, stats, pending, nid(), entry, method, cur, kwargs, None)
+            nxt = one_call(res, stats, pending, nid(), entry, method, cur, kwargs, OMIT)
             if nxt is None:
                 break
             cur = nxt
@@ -360,7 +369,7 @@ def run(ctx):
     compare_with_model(res, pending, stats)
     attach_history(res)
     res.rule = ("Real calls over entry points {date x 3 methods, the 3 method functions, preprocess_ts, split_disjoint_nodes} x record_provenance "
-                "{absent, True, False} x parameter sets (each generic and each method-specific keyword alone, random combinations, population_size as "
+                "{omitted, None, True, False} x parameter sets (each generic and each method-specific keyword alone, random combinations, population_size as "
                 "number / dict / PopulationSizeHistory, numpy-typed values) x 0-3 earlier provenance rows (one of them not JSON), plus a 4-step pipeline "
                 "feeding each output to the next call and back-to-back call sequences in the same process that share few parameters. Each call: provenance table before/after compared with the Lean model (old rows by identity, new "
                 "row's parameters in dict order with values) and checked against the statement. Non-trivial = recording on and a row was appended; "
@@ -389,7 +398,7 @@ def replay(ctx, payload):
     prev = d.get("preceding_calls") or []
     for h in prev:      # the calls made earlier in the failing process, in order, on the same input
         hk = {k: v for k, v in h["kwargs"].items() if not (isinstance(v, str) and v.startswith("<"))}
-        if h["flag"] is not None:
+        if h["flag"] != OMIT:
             hk["record_provenance"] = h["flag"]
         pc.call_entry(h["entry"], h["method"], ts, hk)
     print(f"re-ran {len(prev)} preceding call(s) of the failing process, now the failing call:")
